@@ -624,7 +624,11 @@ def _robust_gp_fit_(
             # Increase gp noise hyp lower bounds
             bounds = tmp_gp.get_bounds()
             noise_bound = bounds["noise_log_scale"]
-            noise_bound = (noise_bound[0] + noise_nudge, noise_bound[1])
+            # (the nudges accumulate: never raise the lower bound above the upper one)
+            noise_bound = (
+                min(noise_bound[0] + noise_nudge, noise_bound[1]),
+                noise_bound[1],
+            )
             bounds["noise_log_scale"] = noise_bound
             tmp_gp.set_bounds(bounds)
 
